@@ -23,12 +23,58 @@ pub struct COut {
     pub pinned: usize,
 }
 
-fn entry<'a>(terms: &'a [Value], pr: &str, variant: &str) -> &'a Value {
+pub fn entry<'a>(terms: &'a [Value], pr: &str, variant: &str) -> &'a Value {
     terms.iter().find(|e| e["pr"] == pr && e["variant"] == variant).expect("term entry")
 }
 
 fn keymat_with(sym: [u8; 32]) -> KeyMat {
     conc::keymat_from(sym, 0)
+}
+
+/// C08 on a re-used core builder object: of which (message, footer, assertion) combination is the minted text the
+/// specification's token?  local: byte-identical to the evaluator's token for that combination and the mint's nonce
+/// seed; public: carries that message and its signature verifies under the evaluator's signing input for that
+/// combination.  Returns the combinations that fit ("m1|f1|none", ...); the trace specification demands that the
+/// object's current values are among them (exactly them for local tokens).
+pub fn spec_of(terms: &[Value], pr: Proto, tok: &str, km: &KeyMat, seed32: &[u8; 32], msgs: &[String; 2], f1: &str, a1: &str) -> Vec<String> {
+    let prn = pr.name();
+    let e = entry(terms, &prn, "derived");
+    let seed_len = if pr.v == 2 { 24 } else { 32 };
+    let mut fits = vec![];
+    let decoded = if pr.public { Parts::parse(tok).and_then(|p| unb64(&p.payload)) } else { None };
+    for (mn, m) in [("m1", &msgs[0]), ("m2", &msgs[1])] {
+        for (fname, f) in [("none", ""), ("f1", f1)] {
+            for (aname, a) in [("none", ""), ("a1", a1)] {
+                if !pr.has_assertion() && aname != "none" {
+                    continue;
+                }
+                let env = Env { km, seed: &seed32[..seed_len], msg: m.as_bytes(), footer: f.as_bytes(), assertion: a.as_bytes() };
+                let ok = if !pr.public {
+                    token_of(e, &env).map(|t| t == tok).unwrap_or(false)
+                } else {
+                    let (alg, input) = signing_input(e, &env).unwrap_or_default();
+                    let siglen = match alg.as_str() { "ed25519" => 64, "ecdsa-p384" => 96, _ => 256 };
+                    let segs_ok = tok.split('.').count() == if f.is_empty() { 3 } else { 4 }
+                        && (f.is_empty() || tok.split('.').nth(3).and_then(unb64).map(|d| d == f.as_bytes()).unwrap_or(false));
+                    match &decoded {
+                        Some(d) if d.len() >= siglen && segs_ok => {
+                            let (mm, sig) = d.split_at(d.len() - siglen);
+                            mm == m.as_bytes() && match alg.as_str() {
+                                "ed25519" => ed25519_verify(&km.ed_pk, &input, sig),
+                                "ecdsa-p384" => p384_verify(&km.p384_pk, &input, sig),
+                                _ => rsa_pss_verify(&km.rsa_pk, &input, sig),
+                            }
+                        }
+                        _ => false,
+                    }
+                };
+                if ok {
+                    fits.push(format!("{}|{}|{}", mn, fname, aname));
+                }
+            }
+        }
+    }
+    fits
 }
 
 /// Pins the evaluator to the official vectors. Returns Err(description) on a mismatch.
